@@ -16,6 +16,7 @@ use std::time::Instant;
 use cairo_lang_compiler::db::RootDatabase;
 use cairo_lang_compiler::diagnostics::get_diagnostics_as_string;
 use cairo_lang_defs::db::DefsGroup;
+use cairo_lang_defs::ids::TopLevelLanguageElementId;
 use cairo_lang_filesystem::db::FilesGroup;
 use cairo_lang_filesystem::ids::{CrateId, CrateInput};
 use cairo_lang_lowering::LoweringStage;
@@ -48,14 +49,32 @@ fn run_query(db: &RootDatabase, main: &[CrateInput], q: &Value) {
             }
         }
         "lower" | "sierra" => {
-            let Ok(mut fns) = find_all_free_function_ids(db, main_ids) else { return };
-            if fns.is_empty() {
+            // The definitions are looked up without interning any concrete function id: only the one chosen
+            // function is turned into a ConcreteFunctionWithBodyId, so the query really perturbs the order in
+            // which the database meets (and numbers) the functions.
+            let mut defs = vec![];
+            for c in main_ids.iter() {
+                for m in db.crate_modules(*c).iter() {
+                    if let Ok(data) = m.module_data(db) {
+                        for (id, _) in data.free_functions(db).iter() {
+                            defs.push(*id);
+                        }
+                    }
+                }
+            }
+            if defs.is_empty() {
                 return;
             }
-            fns.sort_by_key(|f| f.full_path(db));
+            defs.sort_by_key(|f| f.full_path(db));
             // slot 0: the last function (by path), slot 1: the middle one - i.e. not the
-            // functions the breadth-first assembly meets first.
-            let f = if slot == 0 { fns[fns.len() - 1] } else { fns[fns.len() / 2] };
+            // functions the breadth-first assembly meets first.  Generic functions have no concrete id
+            // without arguments: the nearest earlier non-generic one is taken.
+            let start = if slot == 0 { defs.len() - 1 } else { defs.len() / 2 };
+            let Some(f) = (0..=start).rev().find_map(|i| {
+                cairo_lang_lowering::ids::ConcreteFunctionWithBodyId::from_no_generics_free(db, defs[i])
+            }) else {
+                return;
+            };
             if q["q"] == "lower" {
                 let _ = db.lowered_body(f, LoweringStage::Final);
             } else {
